@@ -54,7 +54,7 @@ def generate(check, rng, tier, run_index):
     for k in range(npaths):
         ext = rng.choice(SAVE_EXTS)
         pre = rng.weighted([('absent', 2), ('valid_short', 3), ('valid_long', 4), ('empty', 1), ('junk', 2)])
-        stem = rng.choice(['p%d', 'p%d', 'Traj_%d', 'RUN%d', 'my.run-%d'])      # upper case, dots and dashes in names are deliberate
+        stem = rng.choice(['p%d', 'p%d', 'Traj_%d', 'RUN%d', 'my.run-%d', 'run %d', 'sn%d.out'])      # upper case, dots, dashes, blanks and a second extension-like part are deliberate
         ent = {'name': (stem % k) + '.' + ext, 'ext': ext, 'pre': pre, 'pre_frames': 1 if pre == 'valid_short' else rng.randint(3, 6)}
         if ext in RESTART and rng.chance(0.6):
             # numbered files name.N left by an earlier multi-frame save of n frames (zero-padded when n >= 10) -- all of
